@@ -67,3 +67,64 @@ fn c13_color_error_clamp() {
 
 // (KDTree::new on a 2-colour palette + find: std's sort_by_key does not finish in CBMC (300 s) and Kani 0.68 refuses to
 //  stub the generic `<[T]>::sort_by_key`; construction stays an assumption of the C13 claim)
+
+// ---------------------------------------------------------------- palette extraction
+// leaf with fixed sums (symbolic sums mean three symbolic 64-bit divisions per leaf in `to_rgba`: no verdict in 5 min) and any stale index
+fn any_leaf() -> OcTreeLeaf {
+    OcTreeLeaf { red_acc: 700, green_acc: 35, blue_acc: 1400, color_count: 7, index: kani::any() }
+}
+fn leaf_or_empty(is_leaf: bool) -> OcTreeNode { if is_leaf { OcTreeNode::Leaf(any_leaf()) } else { OcTreeNode::Empty } }
+
+//# kind=bounded tier=quick props=C13 bound="one-level octree with the fixed occupancy L.L..LL. (L leaf, . empty; a sub-tree child, or a symbolic occupancy pattern, makes CBMC unroll palette_rec's recursion without end); fixed leaf sums, any stale leaf indices, any number (0..=16) of colours in the `removed` bucket" fns=OcTree::build_palette | the palette has exactly one entry per leaf - nothing for empty nodes or for the bucket of pruned colours -, leaves are numbered 0,1,2.. in child order, and palette[leaf.index] is that leaf's mean colour: every index the octree hands out refers to a palette colour
+#[kani::proof]
+#[kani::unwind(10)]
+fn c13_build_palette_one_level() {
+    let top: [bool; 8] = [true, false, true, false, false, true, true, false];
+    let mut tree = OcTree::new();
+    let mut k = 0;
+    while k < 8 { tree.children[k] = leaf_or_empty(top[k]); k += 1; }
+    let rc: usize = kani::any();
+    kani::assume(rc <= 16);
+    tree.removed = OcTreeLeaf { color_count: rc, ..any_leaf() };
+    let palette = tree.build_palette();
+    let mut n = 0;
+    let mut k = 0;
+    while k < 8 {
+        if let OcTreeNode::Leaf(leaf) = &tree.children[k] {
+            assert!(leaf.index == n && n < palette.len());
+            assert!(palette[n].to_rgba() == [100, 5, 200, 255]);
+            n += 1;
+        }
+        k += 1;
+    }
+    assert!(n == 4);
+    assert!(palette.len() == n);
+    kani::cover!(rc > 0);
+    std::mem::forget(tree);
+    std::mem::forget(palette);
+}
+
+//# kind=bounded tier=quick props=C13 bound="the same one-level octree; every 32-bit query colour" fns=OcTree::find,OcTree::build_palette | after build_palette, looking any colour up in the octree yields either nothing (its first path step is an empty child) or an index inside the palette whose palette entry is the colour returned
+#[kani::proof]
+#[kani::unwind(10)]
+fn c13_octree_find_after_palette() {
+    let top: [bool; 8] = [true, false, true, false, false, true, true, false];
+    let mut tree = OcTree::new();
+    let mut k = 0;
+    while k < 8 { tree.children[k] = leaf_or_empty(top[k]); k += 1; }
+    let palette = tree.build_palette();
+    let (r, g, b): (u8, u8, u8) = (kani::any(), kani::any(), kani::any());
+    let first = (((r >> 7) as usize) << 2) | (((g >> 7) as usize) << 1) | ((b >> 7) as usize);
+    match tree.find(RGBA::new(r, g, b, kani::any())) {
+        Some((i, c)) => {
+            assert!(top[first]);
+            assert!(i < palette.len());
+            assert!(palette[i].to_rgba() == c.to_rgba());
+        }
+        None => assert!(!top[first]),
+    }
+    kani::cover!(top[first]);
+    kani::cover!(!top[first]);
+    std::mem::forget(tree);
+    std::mem::forget(palette);
+}
